@@ -185,6 +185,31 @@ Theorem c18_translated_extract_next_is_model :
   forall bs p c, g_extract_next bs p c = extract_next bs p c.
 Proof. exact translated_extract_next_is_model. Qed.
 
+(* the iterator glue is translated too: `WinconBytes::new` (a derived Default) is the hand model's initial state, and
+   new().extract_next(bytes).collect() written over the TRANSLATED `extract_next` / `WinconBytesIter::next`
+   ([gt_extract_next]: reset the capture, copy parser and capture into the iterator, drain it, carry what it leaves) is the
+   drive above *)
+Theorem c18_translated_wincon_bytes_new : g_wb_new = mkWB parser_new capture_default.
+Proof. exact g_wb_new_eq. Qed.
+
+Theorem c18_translated_extract_next_drive :
+  forall bs wb,
+  gt_extract_next bs wb =
+  match g_extract_next bs (wb_parser wb) (wb_capture wb) with
+  | Some (its, p, c) => Some (its, mkWB p c)
+  | None => None
+  end.
+Proof. exact gt_extract_next_eq. Qed.
+
+Theorem c18_translated_new_extract_next_is_model :
+  forall bs,
+  gt_extract_next bs g_wb_new =
+  match extract_next bs parser_new capture_default with
+  | Some (its, p, c) => Some (its, mkWB p c)
+  | None => None
+  end.
+Proof. exact translated_wb_extract_next_is_model. Qed.
+
 (* ---- the Rust functions themselves -----------------------------------------------------
    Generated/WinconStreamFn.v is the TRANSLATION (tools/rs2v, tools/gen_fn_stream.py) of
    cap_wincon_color / write_all / write / write_fmt of crates/anstream/src/wincon.rs and of the
